@@ -91,6 +91,12 @@ def run(ctx):
                 for s in b["stmts"]:
                     if s["k"] == "assign" and any(o.get("k") in ("copy", "move") and o["l"] in body_locals for o in s["rv"].get("ops", [])):
                         used = True
+                tt = b["term"]
+                if tt["k"] == "call" and re.search(r"::(extend_from_slice|append|extend|write_all|write|push_str)$", callee_name(tt) or ""):
+                    for a in tt["args"][1:]:
+                        tg = val_ref_target(du, du.val_operand(a)) if a.get("k") in ("copy", "move") else None
+                        if tg is not None and du.canon(tg)[0] in body_locals:
+                            used = True
                 if not used:
                     continue
                 tests = tests_dominating(fn, bid)
